@@ -248,7 +248,7 @@ def SetRefines (v : Callback α α) (s : PSet α) (op : Op α) : Prop :=
 /-- The items `^=` / `symmetric_difference_update` validate. -/
 def symRaw (s : PSet α) (xs : List α) : List α := diff (ofList xs) (inter s (ofList xs))
 
-/-- Finding F17: `^=` and `symmetric_difference_update` test containment on the
+/-- Finding F24: `^=` and `symmetric_difference_update` test containment on the
 *raw* items, so an item that is a member only after validation is neither
 removed nor added.  The refinement needs the validated new items to be absent. -/
 def SymHyp (v : Callback α α) (s : PSet α) : Op α → Prop
@@ -307,13 +307,13 @@ def CopyOK {N : Type} (k : CopyKind) (o : TSObj α N) : Prop :=
     (∀ x e, o.validator 0 x = .error e → TraitSet.step o'.validator o'.items (.add x) = .error e)
 
 /-- The copy clause at full strength (no hypothesis for `deepcopy`); the code
-violates it for a validator that is not idempotent (finding F18), see
+violates it for a validator that is not idempotent (finding F25), see
 `Props/C07.lean` `C07_copy_full_fails`. -/
 def C07CopyFull (α N : Type) [DecidableEq α] : Prop :=
   ∀ (k : CopyKind) (o : TSObj α N), PSet.WF o.items → CopyOK k o
 
 /-- The refinement clause at full strength (no hypothesis for `^=`); the code
-violates it (finding F17), see `C07_refines_full_fails`. -/
+violates it (finding F24), see `C07_refines_full_fails`. -/
 def C07RefinesFull (α : Type) [DecidableEq α] : Prop :=
   ∀ (v : Callback α α) (s : PSet α) (op : Op α), PSet.WF s → SetRefines v s op
 
